@@ -397,6 +397,26 @@ def run_snapshot(ctx, case):
     if digest(s) != before:
         ctx.violation('snapshot:solve-modifies-system', 'PRISM.solve changed the System it was created from: %s' % explain_diff(keep, s)[:3])
         return
+    # two objects created from the same System share nothing: wrecking one leaves the other (and the System) alone
+    with np.errstate(all='ignore'):
+        p_a, p_b = s.createPRISM(), s.createPRISM()
+    db = digest(p_b)
+    for t in p_a.sys.types:
+        p_a.sys.density[t] = 9.9
+        p_a.sys.diameter[t] = 7.7
+    p_a.sys.kT = 123.0
+    p_a.omega.data[...] = -1.0
+    p_a.sys.domain.dr = p_a.sys.domain.dr * 3
+    for i, (ta, tb), clo in p_a.sys.closure.iterpairs():
+        clo.potential[...] = 0.0
+        clo.sigma = -2.0
+    ctx.hook('isolation.sibling_object')
+    if digest(p_b) != db:
+        ctx.violation('snapshot:objects-from-one-system-share-state', 'modifying one PRISM object changed another one created from the same System: %s' % [x.replace('sys', 'PRISM', 1) for x in explain_diff(copy.deepcopy(p_b), p_b)[:1]])
+        return
+    if digest(s) != before:
+        ctx.violation('snapshot:prism-object-shares-state-with-system', 'modifying a PRISM object changed the System it was created from: %s' % explain_diff(keep, s)[:3])
+        return
     # isolation: hostile edits of the System after creation leave the PRISM object unchanged
     pd = digest(p)
     pkeep = copy.deepcopy(p)
